@@ -360,6 +360,27 @@ fn decode_indep(t: &mut Tape, seeds: &[String]) -> IndepCase {
         };
         junk.push((if t.chance(1, 3) { 0 } else { t.pick(list.len() + 1) }, j));
     }
+    if t.chance(1, 6) {
+        // a long leading block of comment / header lines (list headers with changelogs routinely
+        // exceed the 1024-byte window that metadata scanning looks at)
+        let target = 700 + t.pick(900);
+        let mut total = 0;
+        let mut head = vec![];
+        while total < target {
+            let l = match t.pick(5) {
+                0 => format!("! {}: {}", t.choose(&["Title", "Homepage", "Expires", "Version", "Licence"]), gen::word(t)),
+                1 => "[Adblock Plus 2.0]".to_string(),
+                2 => format!("! {} unbreak: https://{}{}", gen::word(t), gen::host(t).0, gen::path(t)),
+                3 => format!("! {}", (0..(1 + t.pick(12))).map(|_| gen::word(t)).collect::<Vec<_>>().join(" ")),
+                _ => format!("!{}", "-".repeat(1 + t.pick(70))),
+            };
+            total += l.len() + 1;
+            head.push(l);
+        }
+        for (i, l) in head.into_iter().enumerate() {
+            junk.insert(i, (0, l));
+        }
+    }
     IndepCase { list, junk, hosts_format, crlf: t.chance(1, 2), optimize: t.chance(1, 2) }
 }
 
@@ -386,6 +407,18 @@ pub fn check_hosts_eq(c: &HostsEq, obs: &mut Obs) -> Result<(), String> {
     let a = parse_filter(&line, true, hosts_opts);
     if a.is_err() {
         obs.label("hosts-entry-rejected");
+        // A well-formed ASCII host name (LDH/underscore labels, an interior dot, no trailing dot) is
+        // rejected as a hosts entry only if `||host^` is rejected as well.
+        let wellformed = c.host.is_ascii()
+            && c.host.contains('.')
+            && c.host.split('.').all(|l| !l.is_empty() && l.bytes().all(|b| b.is_ascii_alphanumeric() || b == b'-' || b == b'_'));
+        if wellformed {
+            let norm = c.host.to_lowercase();
+            let norm = norm.trim_start_matches("www.");
+            if norm.contains('.') && parse_filter(&format!("||{}^", norm), true, std_opts()).is_ok() {
+                return Err(format!("hosts entry {:?} is rejected ({:?}) although the standard rule \"||{}^\" loads", line, a.err(), norm));
+            }
+        }
         return Ok(());
     }
     let eh = build_engine_opts(&[line.clone()], false, true, &[], hosts_opts);
@@ -414,6 +447,22 @@ fn decode_hosts_eq(t: &mut Tape) -> HostsEq {
         3 => "пример.рф".to_string(),
         4 => format!("{}.", reg).trim_end_matches('.').to_string(),
         5 => format!("a_b.{}", reg),
+        6 if t.chance(1, 2) => {
+            // long names: labels up to 70 octets, up to 130 labels (no DNS length limit applies to rules)
+            let mut s = String::new();
+            if t.chance(1, 2) {
+                for i in 0..(1 + t.pick(130)) {
+                    s.push_str(&format!("{}{}.", t.choose(&["a", "b", "cd", "x1"]), i));
+                }
+            } else {
+                for _ in 0..(1 + t.pick(3)) {
+                    let n = 1 + t.pick(70);
+                    s.push_str(&"k".repeat(n));
+                    s.push('.');
+                }
+            }
+            s + &reg
+        }
         _ => h.clone(),
     };
     let base = host.clone();
